@@ -8,15 +8,17 @@ import (
 	"encoding/json"
 	"flag"
 	"fmt"
+	"math/rand"
 	"os"
 	"path"
+	"runtime/debug"
 	"strings"
 
 	"github.com/pingcap/log"
 	"github.com/tikv/pd/pkg/cache"
-	"github.com/tikv/pd/server/schedule/hbstream"
 	"github.com/tikv/pd/server/schedule"
 	"github.com/tikv/pd/server/schedule/checker"
+	"github.com/tikv/pd/server/schedule/hbstream"
 	"github.com/tikv/pd/server/schedule/operator"
 	"go.uber.org/zap"
 
@@ -64,6 +66,10 @@ func stageOf(desc string, rules bool) string {
 		return "StRuleRole"
 	case "rule-split-region":
 		return "StSplit"
+	case "leave-joint-state":
+		return "StJoint"
+	case "promote-learner":
+		return "StLearner"
 	}
 	return "StOther"
 }
@@ -76,18 +82,46 @@ type outcome struct {
 	viol    []res.Violation
 }
 
-func runCase(spec gen10.ClusterSpec, entry string) outcome {
+func runCase(spec gen10.ClusterSpec, entry string) (o outcome) {
 	bt := gen10.Build(spec)
 	defer bt.Cancel()
-	var o outcome
 	var op *operator.Operator
 	rules := bt.TC.GetOpts().IsPlacementRulesEnabled()
 	coqEntry := "EReplica"
 	if rules {
 		coqEntry = "ERule"
 	}
+	if entry == "controller" {
+		coqEntry = "EController"
+	}
 	// print the input BEFORE running the checker (the checkers do not mutate the cluster, but the fit must be the one they see)
 	input := bt.CoqInput(coqEntry)
+	defer func() {
+		// a checker that crashes on the input: reported as a violation with the panic site, no Coq case
+		if e := recover(); e != nil {
+			site := "unknown"
+			for _, l := range strings.Split(string(debug.Stack()), "\n") {
+				// first PD frame of the stack: "github.com/tikv/pd/server/schedule/checker.(*RuleChecker).fixLooseMatchPeer(...)"
+				if i := strings.Index(l, "github.com/tikv/pd/server/schedule"); i == 0 {
+					f := l[strings.LastIndex(l, "/")+1:]
+					if j := strings.Index(f, "("); j >= 0 && strings.HasPrefix(f[j:], "(*") {
+						f = f[j+2:]
+						f = strings.Replace(f, ")", "", 1)
+					} else if k := strings.Index(f, "."); k >= 0 {
+						f = f[k+1:]
+					}
+					if j := strings.Index(f, "("); j >= 0 {
+						f = f[:j]
+					}
+					site = f
+					break
+				}
+			}
+			o = outcome{summary: fmt.Sprintf("PANIC %v", e), tags: []string{"result:panic"},
+				viol: []res.Violation{{Sig: "C10:checker-panics:" + site, Desc: fmt.Sprintf("the checker panics (%v) on entry %s", e, entry),
+					Replay: map[string]interface{}{"Spec": spec, "Entry": entry}}}}
+		}
+	}()
 	switch entry {
 	case "controller":
 		ctx, cancel := context.WithCancel(context.Background())
@@ -160,6 +194,7 @@ func main() {
 	replay := flag.String("replay", "", "json file with cases: run and print what the implementation answers")
 	flag.Parse()
 	log.ReplaceGlobals(zap.NewNop(), nil)
+	rand.Seed(int64(*seed)) // PD's own uses of math/rand (RandomPick, Rand*Region); Go map order stays free: the models are set-valued
 
 	R := res.New("C10", *seed, *tier)
 	R.Rule = "generated clusters (3-9 stores with every state the filters read, 2-level labels incl. case variants and empty values, " +
@@ -183,6 +218,12 @@ func main() {
 			R.Count(t)
 		}
 		R.Count("entry:" + entry)
+		for _, v := range o.viol {
+			R.Violate(v.Sig, v.Desc, v.Replay)
+		}
+		if o.coq == "" {
+			return o // no Coq case (cases.json stays aligned with the case files)
+		}
 		R.Case(o.coq, o.nontriv)
 		for _, v := range o.viol {
 			R.Violate(v.Sig, v.Desc, v.Replay)
@@ -222,11 +263,14 @@ func main() {
 		master := rng.New(*seed)
 		for k := 0; k < *n; k++ {
 			r := master.Fork(uint64(k))
-			opt := gen10.GenOpt{RulesPct: 40, Malformed: k%10 == 9, TiFlashPct: 4, HealthyBias: 35}
+			opt := gen10.GenOpt{RulesPct: 40, Malformed: k%6 == 5, TiFlashPct: 4, HealthyBias: 35}
 			spec := gen10.Generate(r, opt)
 			entry := "replica"
 			if spec.Cfg.Rules {
 				entry = "rule"
+			}
+			if r.Pct(25) {
+				entry = "controller" // CheckerController.CheckRegion: joint-state / learner checker in front
 			}
 			emit(spec, entry)
 		}
